@@ -19,6 +19,7 @@ func main() {
 	only := flag.String("only", "", "print only this obligation id")
 	dump := flag.String("dump", "", "debug: pkg:func — print the paths of a function")
 	warm := flag.Bool("warm", false, "load everything once (warms the go build cache)")
+	genBaseline := flag.Bool("gen-baseline", false, "write checker/rules/baseline_funcs_gen.go from the current tree (development only)")
 	selftest := flag.String("selftest", "", "run the mutant catalogue of a property (or 'all') against the checker, in memory")
 	flag.Parse()
 	if t := os.Getenv("VERIF_TIER"); t != "" && *tier == "" {
@@ -33,9 +34,16 @@ func main() {
 		fmt.Printf("warm: %d packages, %d errors\n", len(p.Pkgs), len(p.Errors))
 		return
 	}
+	if *genBaseline {
+		rules.GenBaseline()
+		return
+	}
 	if *selftest != "" {
 		res := rules.SelfTest(*selftest, true)
-		fmt.Printf("selftest %s: %d mutants, %d killed, %d survived, %d stale\n", *selftest, res.Total, res.Killed, len(res.Survived), len(res.Stale))
+		fmt.Printf("selftest %s: %d mutants, %d killed, %d survived, %d stale; %d benign refactorings, %d raised an alarm\n", *selftest, res.Total, res.Killed, len(res.Survived), len(res.Stale), res.Benign, len(res.FalseAlarms))
+		for _, s := range res.FalseAlarms {
+			fmt.Println("  FALSE ALARM:", s)
+		}
 		for _, s := range res.Stale {
 			fmt.Println("  stale:", s)
 		}
